@@ -860,9 +860,14 @@ func gen27(sc ledger.Scenario) func(seed uint64, tier string) *sim.Plan {
 			ti++
 			return st
 		}
-		long := pl.Intn(100) < 35
+		shape := pl.Intn(100)
+		heavy := shape < 8 // a long run that lets > 1000 dead nodes pile up below round 100: PruneBelowVersion deletes in several batches
+		long := shape < 40
 		var count, rounds int
-		if long {
+		if heavy {
+			count = pl.Range(1, 5)
+			rounds = 100 + count + pl.Range(4, 14)
+		} else if long {
 			count = pl.Range(1, 12)
 			rounds = 100 + count + pl.Range(4, 24)
 		} else {
@@ -876,11 +881,22 @@ func gen27(sc ledger.Scenario) func(seed uint64, tier string) *sim.Plan {
 		p.Cfg["funding"] = 1e13
 		p.Cfg["c27_long"] = map[bool]int64{true: 1, false: 0}[long]
 		nKeys := pl.Range(2, 24)
+		if heavy {
+			nKeys = pl.Range(24, 48)
+		}
 		churn := func() sim.Step { return genChurnStep(pl, nKeys) }
 		var out []sim.Step
 		busy := 0 // remaining rounds of a churn burst
 		restartIn := -1
 		for rn := 1; rn <= rounds; rn++ {
+			if heavy && rn <= 100+count+3 {
+				// quiet phase: nothing that would prune early (no restart, no direct prune, no fault)
+				for j := pl.Range(2, 4); j > 0; j-- {
+					out = append(out, churn())
+				}
+				out = append(out, sim.Step{Op: "block", I: []int64{int64(pl.Intn(8)), 0}})
+				continue
+			}
 			// control steps
 			if pl.Intn(100) < 6 {
 				out = append(out, sim.Step{Op: "c27.hold", I: []int64{int64(pl.Range(1, 8))}})
@@ -888,8 +904,11 @@ func gen27(sc ledger.Scenario) func(seed uint64, tier string) *sim.Plan {
 			if nt.Intn(100) < 12 {
 				out = append(out, sim.Step{Op: "c27.sync", I: []int64{int64(nt.Range(1, 3))}})
 			}
-			if dk.Intn(100) < map[bool]int{true: 4, false: 9}[long] {
-				site := dk.Pick([]int{3, 3, 2, 4, 4}) // SaveChanges, RecordDeadNodes, StoreLFBRound, MultiDeleteNode, multiDeleteDeadNodes
+			if dk.Intn(100) < map[bool]int{true: 4, false: 9}[long] || (heavy && dk.Intn(100) < 40) {
+				site := dk.Pick([]int{3, 3, 2, 4, 4})
+				if heavy {
+					site = 3 + dk.Intn(2)
+				} // SaveChanges, RecordDeadNodes, StoreLFBRound, MultiDeleteNode, multiDeleteDeadNodes
 				ioerr := dk.Pick([]int{3, 1})
 				out = append(out, sim.Step{Op: "c27.crash", I: []int64{int64(site), int64(dk.Intn(4)), int64(ioerr)}})
 				if site >= 3 {
@@ -911,6 +930,9 @@ func gen27(sc ledger.Scenario) func(seed uint64, tier string) *sim.Plan {
 			pt := 10
 			if long && rn > 100+count {
 				pt = 45
+			}
+			if heavy {
+				pt = 70
 			}
 			if !long && rn > count+4 {
 				pt = 25
@@ -1073,10 +1095,18 @@ func init() {
 	sc.Finish = finish27
 	sim.Register(&sim.Check{
 		ID: "C27", Title: "Pruning never deletes state that a retained block still needs", World: "ledger",
-		Gen: gen27(sc), Exec: sc.Exec,
-		Quick: sim.Budget{Runs: 96, WallS: 80}, Thorough: sim.Budget{Runs: 4000, WallS: 1200},
-		LevelText: "a follower chain (own chain.Chain and PNodeDB on its own simulated disk) receives every block of the primary (key-churn workload: a sim-owned registered contract inserts, deletes and re-inserts identical and different values under fixed keys through the real StateContext within one transaction, within one block and in later blocks; plus sends, faucet pours and arbitrary contract calls), executes it with Block.ComputeState or syncs it with ApplyBlockStateChange, and finalises it through the shipped workers: Chain.FinalizeRound -> FinalizeRoundWorker -> finalizeRound (ComputeFinalizedBlock, 3-confirmation rule) -> FinalizedBlockWorker -> finalizeBlockProcess -> finalizeBlock (SaveChanges, RecordDeadNodes(ClientState.GetDeletes(), round), StoreLFBRound) with a sim BlockStateHandler/ViewChanger; pruning runs in the shipped PruneClientStateWorker on the fake clock of a synctest bubble (pruneClientState with its ring walk / alignment to rounds divisible by 100 -> PNodeDB.PruneBelowVersion; prune_below_count 1..12 from the plan; runs of 105..140 rounds reach the aligned round 100, shorter runs reach pruning through restarts); the follower's disk crashes at plan-chosen write boundaries inside SaveChanges, RecordDeadNodes, StoreLFBRound, the node-deletion batches and the dead-node-record deletion of PruneBelowVersion (or returns one I/O error there), the follower restarts from its disk alone at the LFB record the shipped code stored, re-executes and keeps finalising and pruning. Oracle: after every prune and every restart each finalised block at or above the prune round — at least every block from LFB - prune_below_count on — is walked completely against the persistent node DB alone and must equal the model state captured when the primary assembled it",
-		LevelNote: "the real finalize and prune workers run (no fallback); additionally the plan issues direct PNodeDB.PruneBelowVersion calls at seeded versions <= LFB. Consensus facts (one notarized block per round, rank 0) are sim-owned. Crash points inside PruneBelowVersion are placed only where a failing write cannot leave its iterator goroutine blocked on its channel (a goroutine blocked forever would abort the synctest bubble): the last node batch, the dead-record deletion, and 1000-key batches with at most one record left. Power loss (lost unsynced suffix) is not injected: the code never syncs. The MPT change collector and PNodeDB live in github.com/0chain/common (outside /repo): /repo decides which block's deletes are recorded under which round and which version is pruned",
+		Gen: gen27(sc), Exec: func(env *sim.Env, p *sim.Plan) *sim.Result {
+			// The root context's Done channel is created lazily by the first Done() call. Process-global
+			// worker goroutines started by Boot (outside any bubble) select on it; if code inside the
+			// bubble happens to call Done() first, the channel belongs to the bubble and the outside
+			// goroutine dies with "select on synctest channel from outside bubble". Create it out here.
+			ledger.Boot()
+			_ = common.GetRootContext().Done()
+			return sc.Exec(env, p)
+		},
+		Quick: sim.Budget{Runs: 96, WallS: 80}, Thorough: sim.Budget{Runs: 6000, WallS: 1200},
+		LevelText: "a follower chain (own chain.Chain and PNodeDB on its own simulated disk) receives every block of the primary (key-churn workload: a sim-owned registered contract inserts, deletes and re-inserts identical and different values under fixed keys through the real StateContext within one transaction, within one block and in later blocks; plus sends, faucet pours and arbitrary contract calls), executes it with Block.ComputeState or syncs it with ApplyBlockStateChange, and finalises it through the shipped workers: Chain.FinalizeRound -> FinalizeRoundWorker -> finalizeRound (ComputeFinalizedBlock, 3-confirmation rule) -> FinalizedBlockWorker -> finalizeBlockProcess -> finalizeBlock (SaveChanges, RecordDeadNodes(ClientState.GetDeletes(), round), StoreLFBRound) with a sim BlockStateHandler/ViewChanger; pruning runs in the shipped PruneClientStateWorker on the fake clock of a synctest bubble (pruneClientState with its ring walk / alignment to rounds divisible by 100 -> PNodeDB.PruneBelowVersion; prune_below_count 1..12 from the plan; runs of 105..140 rounds reach the aligned round 100, shorter runs reach pruning through restarts); the follower's disk crashes at plan-chosen write boundaries inside SaveChanges, RecordDeadNodes, StoreLFBRound, the node-deletion batches and the dead-node-record deletion of PruneBelowVersion (or returns one I/O error there, except in SaveChanges), the follower restarts from its disk alone at the LFB record the shipped code stored, re-executes and keeps finalising and pruning. Oracle: after every prune and every restart each finalised block at or above the prune round — at least every block from LFB - prune_below_count on — is walked completely against the persistent node DB alone and must equal the model state captured when the primary assembled it",
+		LevelNote: "the real finalize and prune workers run (no fallback); additionally the plan issues direct PNodeDB.PruneBelowVersion calls at seeded versions <= LFB. Consensus facts (one notarized block per round, rank 0) are sim-owned. Crash points inside PruneBelowVersion are placed only where a failing write cannot leave its iterator goroutine blocked on its channel (a goroutine blocked forever would abort the synctest bubble): the last node batch, the dead-record deletion, and 1000-key batches with at most one record left. No I/O errors (only crashes) are injected in SaveChanges: util.MerklePatriciaTrie.SaveChanges selects between its error and its done channel when both are ready, so whether a failed write is reported is decided by the Go runtime's unseedable choice (a failed save reported as success was seen once, not replayable, not claimed). Which blocks count as saved is read off the disk. Power loss (lost unsynced suffix) is not injected: the code never syncs. The MPT change collector and PNodeDB live in github.com/0chain/common (outside /repo): /repo decides which block's deletes are recorded under which round and which version is pruned",
 		Technique: "deterministic simulation: key-churn workload, crash/restart and I/O-error faults at disk-write boundaries, fake clock for the shipped workers, full-state read-back oracle against a model",
 		DesignRef: "6/C27", Regime: "single-threaded event loop inside a testing/synctest bubble; the shipped worker goroutines run to quiescence (synctest.Wait) after every step",
 		Components: sim.Components{
